@@ -11,7 +11,7 @@ Import ListNotations.
 Lemma neighbors_bds : forall st b1 b2 k i, neighbors st b1 k i = neighbors st b2 k i.
 Proof.
   intros st b1 b2 k i. unfold neighbors. destruct (i =? k) eqn:E; auto.
-  unfold cell_supp. destruct (in_window (hs_disparity st) k i); auto.
+  unfold cell_supp_d. destruct (in_window None k i); auto.
   rewrite E. reflexivity.
 Qed.
 
@@ -20,7 +20,7 @@ Proof. intros d k i H. unfold in_window in H. apply andb_prop in H. destruct H a
 
 Lemma cell_supp_offdiag_bds : forall st b1 b2 lv i, i <> lv -> cell_supp st b1 lv i = cell_supp st b2 lv i.
 Proof.
-  intros st b1 b2 lv i H. unfold cell_supp. destruct (in_window (hs_disparity st) lv i); auto.
+  intros st b1 b2 lv i H. unfold cell_supp, cell_supp_d. destruct (in_window (hs_disparity st) lv i); auto.
   destruct (i =? lv) eqn:E; auto. apply Nat.eqb_eq in E. contradiction.
 Qed.
 
@@ -56,7 +56,7 @@ Qed.
 (* An active function f of level i < k (within the disparity window) that does not vanish on the level-i
    ancestor of a cell c in the support of an active level-k function g is in neighbors[k][i]. *)
 Lemma neighbors_complete_l : forall st b k i f g c,
-  in_window (hs_disparity st) k i = true ->
+  i < k ->
   mesh_ok (msh st i) ->
   In f (AFm st i) -> In f (tp_functions (msh st i)) ->
   In g (AFm st k) ->
@@ -65,13 +65,25 @@ Lemma neighbors_complete_l : forall st b k i f g c,
   In (anc (k - i) c) (support1 (msh st i) f) ->
   In f (neighbors st b k i).
 Proof.
-  intros st b k i f g c Hw Hm Hf HfT Hg Hc Hlen Hs.
-  assert (Hlt := in_window_lt _ _ _ Hw).
+  intros st b k i f g c Hlt Hm Hf HfT Hg Hc Hlen Hs.
+  assert (Hw : in_window None k i = true) by (unfold in_window; rewrite andb_true_r; apply Nat.ltb_lt; auto).
   unfold neighbors. replace (i =? k) with false by (symmetry; apply Nat.eqb_neq; lia).
-  unfold cell_supp. rewrite Hw. apply inter_In. split; auto.
+  unfold cell_supp_d. rewrite Hw. apply inter_In. split; auto.
   apply In_supported_in. exists (anc (k - i) c). split.
   - apply In_cell_grandparent. apply In_support. exists g. split; auto.
   - apply (mo_dual _ Hm); auto.
+Qed.
+
+(* ------------------------------------------------------------------------- *)
+(* the window of the unpatched assembly is not sufficient (witness by evaluation) *)
+Lemma window_old_witness : exists axes d ops k i f,
+  let st := run (hs_init axes (Some d)) ops in
+  In f (neighbors st None k i) /\ ~ In f (neighbors_old st None k i) /\ admissible_b st d = false.
+Proof.
+  exists [mk_axis 2 [3; 1; 1; 3]], 1,
+    [Refine [(0, (CSet, [[0]]))] false; Refine [(1, (CTuple, [[0]]))] false;
+     Refine [(2, (CList, [[0]; [1]])); (1, (CList, [[3]; [5]]))] true], 3, 1, [2].
+  vm_compute. split; [left; reflexivity | split; [intros [] | reflexivity]].
 Qed.
 
 (* ------------------------------------------------------------------------- *)
